@@ -325,6 +325,9 @@ class _Idioms(ast.NodeTransformer):
                 else:
                     flat.append(a)
             n = ast.Call(func=n.func, args=flat, keywords=n.keywords)
+        if isinstance(n.func, ast.Lambda) and len(n.func.args.args) == 1 and n.func.args.args[0].arg == "_k" and len(n.args) == 1 and not n.keywords \
+                and isinstance(n.func.body, ast.Subscript):
+            return ast.Subscript(value=n.func.body.value, slice=n.args[0], ctx=ast.Load())
         d = dotted_of(n.func)
         if d and d.split(".")[0] in ("np", "numpy") and d.split(".")[-1] in _NP_METHODS and len(d.split(".")) == 2 and n.args \
                 and not isinstance(n.args[0], ast.Starred):
@@ -337,10 +340,21 @@ class _Idioms(ast.NodeTransformer):
                 rest = []
             if not rest or meth == "astype":
                 return ast.Call(func=ast.Attribute(value=recv, attr=meth, ctx=ast.Load()), args=list(rest), keywords=kws)
+        if d == "len" and len(n.args) == 1 and isinstance(n.args[0], ast.Call) and dotted_of(n.args[0].func) in ("list", "tuple") and len(n.args[0].args) == 1 \
+                and not n.args[0].keywords and not isinstance(n.args[0].args[0], (ast.GeneratorExp, ast.Starred)):
+            return ast.Call(func=n.func, args=[n.args[0].args[0]], keywords=[])
         if d in ("dict", "list", "tuple", "set") and not n.args and not n.keywords and d != "set":
             return {"dict": ast.Dict(keys=[], values=[]), "list": ast.List(elts=[], ctx=ast.Load()), "tuple": ast.Tuple(elts=[], ctx=ast.Load())}[d]
         if d == "dict" and not n.args and n.keywords and all(k.arg for k in n.keywords):
             return ast.Dict(keys=[ast.Constant(k.arg) for k in n.keywords], values=[k.value for k in n.keywords])
+        return n
+
+    def visit_Attribute(self, n: ast.Attribute):
+        self.generic_visit(n)
+        # m.__getitem__ (as a callable) -> lambda _k: m[_k]
+        if n.attr == "__getitem__" and isinstance(n.ctx, ast.Load):
+            return ast.Lambda(args=ast.arguments(posonlyargs=[], args=[ast.arg(arg="_k")], kwonlyargs=[], kw_defaults=[], defaults=[]),
+                              body=ast.Subscript(value=n.value, slice=ast.Name(id="_k", ctx=ast.Load()), ctx=ast.Load()))
         return n
 
     def visit_Subscript(self, n: ast.Subscript):
